@@ -23,14 +23,26 @@ pub fn judge(_part: &str, case: &Case, tally: &mut Tally) -> Verdict {
     // domain: feed_str chunks only, no RIS anywhere, closed by CAN + CSI ?1047l
     let mut tr = ScreenTracker::new();
     let mut chunks: Vec<&str> = vec![];
+    // pieces that go through Vt::feed, one character at a time (no Changes are returned:
+    // whatever they scroll off must come out with a later feed_str)
+    let mut per_char: Vec<bool> = vec![];
     for c in &case.calls {
         match c {
             Call::FeedStr(s) => {
                 tr.feed_str(s);
                 chunks.push(s);
+                per_char.push(false);
             }
-            _ => return Verdict::Invalid("C14 sessions consist of feed_str calls only".into()),
+            Call::Feed(s) => {
+                tr.feed_str(s);
+                chunks.push(s);
+                per_char.push(true);
+            }
+            _ => return Verdict::Invalid("C14 sessions consist of feed_str and feed calls only".into()),
         }
+    }
+    if per_char.last().copied() == Some(true) {
+        return Verdict::Invalid("session must end with a feed_str call".into());
     }
     if tr.saw_ris {
         return Verdict::Invalid("session contains RIS".into());
@@ -42,8 +54,15 @@ pub fn judge(_part: &str, case: &Case, tally: &mut Tally) -> Verdict {
     let mut unlimited = new_vt(case.cols, case.rows, None);
     let mut collected: Vec<avt::Line> = vec![];
     let mut chunks_with_output = 0;
-    for s in &chunks {
+    for (k, s) in chunks.iter().enumerate() {
         let _ = unlimited.feed_str(s);
+        if per_char[k] {
+            for ch in s.chars() {
+                limited.feed(ch);
+            }
+            tally.steps += 1;
+            continue;
+        }
         let ch = limited.feed_str(s);
         let got: Vec<avt::Line> = ch.scrollback.collect();
         if !got.is_empty() {
@@ -81,6 +100,9 @@ pub fn judge(_part: &str, case: &Case, tally: &mut Tally) -> Verdict {
     }
     if tr.saw_switch {
         tally.class("alt_excursion");
+    }
+    if per_char.iter().any(|&b| b) {
+        tally.class("pieces_through_feed");
     }
     let straddle = n_collected > 0 && n_collected <= all.len() && n_collected >= 1 && wrapped(&all[n_collected - 1]);
     if straddle {
@@ -176,6 +198,34 @@ pub fn gen_case(src: &mut Src, _i: usize) -> Case {
     let mut case = Case::new(cols, rows, Some(limit));
     case.calls = chunk(src, &s);
     case.calls.push(Call::FeedStr(CLOSING.to_string()));
+    case
+}
+
+/// the same sessions with about half of the pieces going through `Vt::feed` (which returns
+/// no Changes and trims only the alternate screen): short pieces, so that single final
+/// bytes of mode switches travel that way too
+pub fn gen_mixed_feed(src: &mut Src, i: usize) -> Case {
+    let mut case = if src.chance(1, 2) { gen_case(src, i) } else { gen_wrapped(src, i) };
+    let n = case.calls.len();
+    let mut calls: Vec<Call> = vec![];
+    for (k, c) in case.calls.drain(..).enumerate() {
+        match c {
+            Call::FeedStr(s) if k + 1 < n => {
+                // cut once more so that pieces are short, then pick the route per piece
+                let chars: Vec<char> = s.chars().collect();
+                let cut = src.range(0, chars.len());
+                for piece in [&chars[..cut], &chars[cut..]] {
+                    if piece.is_empty() {
+                        continue;
+                    }
+                    let p: String = piece.iter().collect();
+                    calls.push(if src.chance(1, 2) { Call::Feed(p) } else { Call::FeedStr(p) });
+                }
+            }
+            other => calls.push(other),
+        }
+    }
+    case.calls = calls;
     case
 }
 
@@ -370,6 +420,7 @@ pub fn run(env: &Env) -> PropRun {
     parts.push(random_part(env, "wrapped-lines", env.tier.scale(60_000, 30), &gen_wrapped, &j));
     parts.push(random_part(env, "giant-lines", env.tier.scale(6_000, 30), &gen_giant_lines, &j));
     parts.push(random_part(env, "random-sessions", env.tier.scale(60_000, 30), &gen_case, &j));
+    parts.push(random_part(env, "mixed-feed-calls", env.tier.scale(60_000, 30), &gen_mixed_feed, &j));
     PropRun {
         parts,
         meta: EvidenceMeta {
